@@ -32,12 +32,15 @@ PROPERTY = "C16"
 RULE = ("random: 1-8 options of DEFAULT_OPTS (half of the draws biased to the options named in the "
         "statement), each given by a random non-empty subset of {configuration file (all RawConfigParser "
         "boolean spellings, mixed key case, '=' / ':' delimiters), INSIGHTS_* environment (true/false in "
-        "any case, strings, numerics), command line (real argparse form incl. short switches and "
-        "--opt=value)} with source-distinct values, plus unknown names and names of existing "
+        "any case, strings, numerics), command line (real argparse form: every switch of the option, a switch "
+        "with an argument spelt '--opt V' / '--opt=V' / '-x V' / '-x=V' / '-xV')} with source-distinct values; the "
+        "temp configuration file (5 file names) is named by the constructor or by --conf/-c in each of those "
+        "spellings at any place among the other switches; plus unknown names and names of existing "
         "attributes/methods planted in file and environment; table: finite enumeration of offline "
         "(every source / override pattern) x each vetoed request (every source / override pattern), "
         "offline x implied options, output dir/file x upload/keep switches, host-name obfuscation x "
-        "obfuscation, schedule and payload pairs (thorough: additionally all pairs of boolean options x "
+        "obfuscation, schedule and payload pairs, every way of naming the configuration file (switch x spelling x "
+        "place x file name) x settings carried by the file alone / overridden by environment / command line (thorough: additionally all pairs of boolean options x "
         "sources). Non-trivial: some option is supplied by >= 2 sources with different parsed values, or "
         "the resolved inputs ask for offline together with a vetoed request; distinct by the whole case. "
         "history: 2-4 configuration objects loaded one after the other in the same process, each from its own "
@@ -353,7 +356,8 @@ def build(case, tmp):
     keycase = style.get("keycase", "lower")
     lines = ["# generated", "[insights-client]"]
     env = {}
-    argv = ["insights-client"]
+    groups = []    # command line: one group of argv tokens per switch (a group is never split)
+    spelt = set()  # labels: how switches with an argument / the file name were spelt
     cli_has_ansible_host = False
     unknown = []   # (name, injected value)
     n = 0
@@ -374,11 +378,13 @@ def build(case, tmp):
             if isinstance(v, str):
                 v = v.replace("@T@", tmp)
             if m[o]["cli"] in ("store_true", "store_false") or v is True:
-                argv.append(s)
-            elif (form // 2) % 2 and s.startswith("--"):
-                argv.append("%s=%s" % (s, v))
+                groups.append([s])
             else:
-                argv.extend([s, str(v)])
+                join = a.get("cli_join")
+                if join is None:     # cases written before the spelling became a dimension of its own
+                    join = "eq" if (form // 2) % 2 and s.startswith("--") else "space"
+                groups.append(_spell(s, str(v), join))
+                spelt.add("switch:" + _shape(s, groups[-1]))
             if o == "ansible_host":
                 cli_has_ansible_host = True
     for u in case.get("unk_file", []):
@@ -391,7 +397,7 @@ def build(case, tmp):
         val = "UNK%d" % n
         env["INSIGHTS_" + u.upper()] = val
         unknown.append((u, val))
-    conf = os.path.join(tmp, "etc", "insights-client.conf")
+    conf = os.path.join(tmp, "etc", os.path.basename(case.get("conf_name") or "insights-client.conf"))
     if not os.path.isdir(os.path.join(tmp, "etc")):
         os.mkdir(os.path.join(tmp, "etc"))
     if case.get("has_file", True):
@@ -401,15 +407,59 @@ def build(case, tmp):
         os.remove(conf)
     kwargs = {}
     via = case.get("conf_via", "cli")
+    cf = case.get("conf_form")
+    conf_switch = conf_group = None
+    if os.path.basename(conf) != "insights-client.conf":
+        spelt.add("named:other-file-name")
     if via == "ctor":
         kwargs["conf"] = conf
+        spelt.add("named:constructor")
+    elif cf is not None:
+        # every spelling the client's parser accepts for naming the file, anywhere among the other switches
+        sw = m["conf"]["switches"]
+        conf_switch = sw[cf.get("sw", 0) % len(sw)]
+        conf_group = _spell(conf_switch, conf, cf.get("join", "space"))
+        groups.insert(cf.get("pos", 0) % (len(groups) + 1), conf_group)
     elif via == "cli-c":
-        argv[1:1] = ["-c", conf]
+        conf_switch, conf_group = "-c", ["-c", conf]
+        groups.insert(0, conf_group)
     else:
-        argv.extend(["--conf", conf])
+        conf_switch, conf_group = "--conf", ["--conf", conf]
+        groups.append(conf_group)
+    for i, g in enumerate(groups):
+        if g is conf_group:
+            spelt.add("named:" + _shape(conf_switch, g))
+            if len(groups) > 1:
+                spelt.add("named:" + ("first" if i == 0 else "last" if i == len(groups) - 1 else "between")
+                          + "-of-several-switches")
+    argv = ["insights-client"] + [t for g in groups for t in g]
     if case.get("print_errors"):
         kwargs["_print_errors"] = True
-    return conf, env, argv, kwargs, unknown, cli_has_ansible_host
+    return conf, env, argv, kwargs, unknown, cli_has_ansible_host, spelt
+
+
+JOINS = ["space", "eq", "attached"]
+
+
+def _spell(switch, value, join):
+    """argv tokens for `switch` carrying `value` in one of the spellings of an option with an argument that
+    argparse documents - "--opt V" / "-x V", "--opt=V" (any switch longer than one letter, so "-od=V" too),
+    "-xV" (one-letter switches only) - or accepts through the same code path ("-x=V", observed on the client's
+    parser); a spelling that the switch (or the value) cannot carry falls back to the two-token form"""
+    if join == "eq":
+        return ["%s=%s" % (switch, value)]
+    if join == "attached" and len(switch) == 2 and switch[0] == "-" and switch[1] != "-" \
+            and value and value[0] not in "=-":
+        return [switch + value]
+    return [switch, value]
+
+
+def _shape(switch, tokens):
+    """label of a spelling: '--opt V', '--opt=V', '-x V', '-x=V', '-xV' ('-xy' for longer one-dash switches)"""
+    kind = "--opt" if switch.startswith("--") else ("-x" if len(switch) == 2 else "-xy")
+    if len(tokens) == 2:
+        return kind + " V"
+    return kind + ("=V" if tokens[0].startswith(switch + "=") else "V")
 
 
 def _same(got, exp, kind, src):
@@ -418,34 +468,37 @@ def _same(got, exp, kind, src):
     return type(got) is type(exp) and got == exp
 
 
-_TERM = []
 _CUR_TMP = []
 
 
-def _tidy_on_terminate():
-    """Pool workers are stopped with SIGTERM when another worker reports a failure: remove the temp dir of the
-    running case and leave at once (an exception raised from the handler can be swallowed - e.g. inside a gc
-    callback - or be taken for an exit of the code under test, and a worker that survives its SIGTERM blocks
-    the pool)."""
-    if _TERM and _TERM[0] == os.getpid():
-        return
-    _TERM[:] = [os.getpid()]     # per process: the regressions run in the main process before the workers fork
+def _tidy_on_terminate(armed):
+    """Pool workers are stopped with SIGTERM when the sub-check ends or another worker reports a failure.  While
+    a case runs (a temp dir exists) a handler removes the temp dir and leaves at once (an exception raised from
+    the handler can be swallowed - e.g. inside a gc callback - or be taken for an exit of the code under test,
+    and a worker that survives its SIGTERM blocks the pool).  Between cases the default disposition is put back:
+    a Python-level handler only runs when the interpreter gets control, and a SIGTERM that arrives just before an
+    idle worker blocks on the pool's queue lock (held by the terminating parent for good) would never be acted on
+    - the worker survived and pool.join() hung (seen once in a thorough run on a loaded machine)."""
     import multiprocessing
     import signal
-    if multiprocessing.current_process().name != "MainProcess":
+    if multiprocessing.current_process().name == "MainProcess":
+        return       # regressions / replays run in the main process: its signal handling is not ours
+    if armed:
         def _exit(signum, frame):
             for d in list(_CUR_TMP):
                 shutil.rmtree(d, ignore_errors=True)
             os._exit(143)
         signal.signal(signal.SIGTERM, _exit)
+    else:
+        signal.signal(signal.SIGTERM, signal.SIG_DFL)
 
 
 @contextlib.contextmanager
 def _sandbox():
     """temp dir (tmpfs when available); os.environ, sys.argv, cwd and the process-global tables of config.py
     are put back afterwards"""
-    _tidy_on_terminate()
     meta()
+    _tidy_on_terminate(True)
     shm = "/dev/shm" if os.path.isdir("/dev/shm") and os.access("/dev/shm", os.W_OK | os.X_OK) else None
     tmp = os.path.realpath(tempfile.mkdtemp(prefix="c16-", dir=shm))
     env0 = dict(os.environ)
@@ -465,6 +518,8 @@ def _sandbox():
         _restore_builtin_state()
         shutil.rmtree(tmp, ignore_errors=True)
         _CUR_TMP.remove(tmp)
+        if not _CUR_TMP:
+            _tidy_on_terminate(False)
 
 
 def check(case):
@@ -487,7 +542,7 @@ def _one_load(case, work, ctx=None):
     env0 = dict(os.environ)
     argv0 = list(sys.argv)
     cwd0 = os.getcwd()
-    conf, env, argv, kwargs, unknown, cli_ah = build(case, work)
+    conf, env, argv, kwargs, unknown, cli_ah, spelt = build(case, work)
     has_file = case.get("has_file", True)
     lay = layers(case["assign"] if has_file else
                  [dict((k, v) for k, v in a.items() if k != "file") for a in case["assign"]], work)
@@ -529,6 +584,9 @@ def _one_load(case, work, ctx=None):
         labels.add("offline")
     if unknown:
         labels.add("unknown-names")
+    labels |= spelt
+    if "file" in [x[1] for x in R.values()] and not any(l.startswith("named:c") for l in spelt):
+        labels.add("file-layer-wins-with-" + sorted(l for l in spelt if l.startswith("named:-"))[0])
     res = {"cfg": None, "R": R, "nt": nt, "labels": labels}
 
     if rejected is not None:
@@ -742,7 +800,7 @@ def check_history(case):
             if not os.path.isdir(work):
                 os.mkdir(work)
             res = _one_load(step["load"], work, ctx=list(ctx) if i else None)
-            labels |= set(l for l in res["labels"] if l.split(":")[0] in ("accepted", "rejected", "offline"))
+            labels |= set(l for l in res["labels"] if l.split(":")[0] in ("accepted", "rejected", "offline", "named", "switch"))
             values = dict((o, repr(v[0])) for o, v in res["R"].items())
             applied = []
             if res["cfg"] is not None:
@@ -818,6 +876,8 @@ def _assignment(draw, opt):
                 a["cli"] = draw(st.integers(0, 40))
             else:
                 a["cli"] = draw(_str_value(opt, "cli"))
+            if a["cli"] is not True and mt["cli"] not in ("store_true", "store_false"):
+                a["cli_join"] = draw(st.sampled_from(JOINS))
         elif kind == "bool":
             tv = draw(st.booleans())
             if s == "file":
@@ -851,6 +911,10 @@ COMPANIONS = {
 }
 
 
+# names of the temp configuration file (the path named to the client is an input like any other value)
+CONF_NAMES = ["insights-client.conf"] * 4 + ["custom.conf", "site=lab.conf", "my client.conf", "client_conf"]
+
+
 @st.composite
 def _case(draw, lo=1, hi=8):
     m = meta()
@@ -870,8 +934,13 @@ def _case(draw, lo=1, hi=8):
     assign = [draw(_assignment(o)) for o in opts]
     unk_file = draw(st.lists(st.sampled_from(UNK_PLAIN + UNK_ATTR), max_size=3, unique=True))
     unk_env = draw(st.lists(st.sampled_from(UNK_PLAIN + UNK_ATTR), max_size=3, unique=True))
+    via = draw(st.sampled_from(["cli", "cli-c", "ctor"]))
+    extra = {"conf_name": draw(st.sampled_from(CONF_NAMES))}
+    if via != "ctor":
+        extra["conf_form"] = {"sw": 0 if via == "cli" else 1, "join": draw(st.sampled_from(JOINS)),
+                              "pos": draw(st.integers(0, 9))}
     return {"assign": assign, "unk_file": unk_file, "unk_env": unk_env,
-            "conf_via": draw(st.sampled_from(["cli", "cli-c", "ctor"])),
+            "conf_via": via, **extra,
             "print_errors": draw(st.booleans()),
             "has_file": draw(st.sampled_from([True, True, True, True, True, False])),
             "style": {"delim": draw(st.sampled_from(["=", " = ", ":", ": ", "= "])),
@@ -996,6 +1065,10 @@ def _mkstr(opt, src, value):
     return a
 
 
+# (index into the switches of option conf, spelling): --conf F, --conf=F, -c F, -c=F, -cF
+CONF_SPELLINGS = [(0, "space"), (0, "eq"), (1, "space"), (1, "eq"), (1, "attached")]
+
+
 def table(tier):
     cnt = itertools.count()
     styles = [{"delim": "=", "keycase": "lower"}, {"delim": ": ", "keycase": "upper"},
@@ -1006,8 +1079,12 @@ def table(tier):
         i = next(cnt)
         if any(a is None for a in assigns):
             return None
-        return {"assign": [a for a in assigns if a], "unk_file": [], "unk_env": [], "conf_via": vias[i % 3],
-                "print_errors": False, "has_file": True, "style": styles[(i // 3) % 3]}
+        c = {"assign": [a for a in assigns if a], "unk_file": [], "unk_env": [], "conf_via": vias[i % 3],
+             "print_errors": False, "has_file": True, "style": styles[(i // 3) % 3]}
+        if vias[i % 3] != "ctor":    # the spelling / place of the switch naming the file rotates as well
+            sw, join = CONF_SPELLINGS[(i // 3) % len(CONF_SPELLINGS)]
+            c["conf_form"] = {"sw": sw, "join": join, "pos": (i // 15) % 3}
+        return c
 
     out = []
     off_pats = P_SINGLE_T + P_OVERRIDE + [{}]
@@ -1063,6 +1140,27 @@ def table(tier):
         for app in ["malware-detection", "compliance", "default", "nosuch"]:
             out.append(case(_mkstr("app", s1, app)))
             out.append(case(_mkstr("app", s1, app), _mkstr("retries", "file", "2")))
+    # G: every way of naming the configuration file on the command line (switch x spelling x place among the
+    #    other switches x file name) x a setting carried by the file alone / overridden by environment / by
+    #    the command line: the file layer is the *named* file's, whatever the spelling
+    for sw, join in CONF_SPELLINGS:
+        for pos in (0, 1, 2):
+            for name in sorted(set(CONF_NAMES)):
+                for k, extra in enumerate([[], [_mkstr("username", "env", "E9u")],
+                                           [{"opt": "retries", "file": "5", "cli": 9, "cli_form": 0,
+                                             "cli_join": JOINS[(pos + len(name)) % 3]}],
+                                           [_mkstr("module", "cli", "insights.client.apps.C1")]]):
+                    i = next(cnt)
+                    c = {"assign": [_mk("auto_update", {"file": _F}, i), _mk("obfuscate", {"file": _T}, i + 1),
+                                    _mkstr("username", "file", "F9u"), _mkstr("cmd_timeout", "file", "33"),
+                                    _mkstr("display_name", "cli", "C9dn")] + extra,
+                         "unk_file": [], "unk_env": [], "conf_via": "cli" if sw == 0 else "cli-c",
+                         "conf_form": {"sw": sw, "join": join, "pos": pos}, "conf_name": name,
+                         "print_errors": False, "has_file": True, "style": styles[i % 3]}
+                    if k == 3:
+                        c["assign"][-1]["cli_form"] = 1 + 2 * (i % 2)
+                        c["assign"][-1]["cli_join"] = JOINS[i % 3]
+                    out.append(c)
     if tier != "quick":
         m = meta()
         bools = sorted(o for o in m if m[o]["kind"] in ("bool", "tri"))
@@ -1099,6 +1197,18 @@ REGRESSIONS = [
                                                 {"opt": "no_upload", "file": "no"}]}),
     Reg("valid-app", "table", {"assign": [{"opt": "app", "cli": "malware-detection"},
                                           {"opt": "retries", "file": "2"}]}),
+    # harness smoke test for the spellings of switches with an argument (-c=FILE in the middle, -mMOD, --retry=N,
+    # --group=V with '=' in the value; -od=DIR, file name with a blank)
+    Reg("spellings-attached-conf", "random", {
+        "assign": [{"opt": "username", "file": "F9u"}, {"opt": "auto_update", "file": "off"},
+                   {"opt": "retries", "file": "5", "env": "7", "cli": 9, "cli_join": "eq"},
+                   {"opt": "module", "cli": "insights.client.apps.C1", "cli_form": 1, "cli_join": "attached"},
+                   {"opt": "group", "cli": "C9g=x", "cli_join": "eq"}],
+        "conf_via": "cli-c", "conf_form": {"sw": 1, "join": "eq", "pos": 1}, "conf_name": "site=lab.conf"}),
+    Reg("spellings-short-eq", "table", {
+        "assign": [{"opt": "output_dir", "cli": "rel_od", "cli_form": 1, "cli_join": "eq"},
+                   {"opt": "cmd_timeout", "file": "33"}, {"opt": "keep_archive", "file": "yes"}],
+        "conf_via": "cli", "conf_form": {"sw": 0, "join": "eq", "pos": 7}, "conf_name": "my client.conf"}),
     # harness smoke test for the history interpreter: three loads (shared configuration-file path, file / env /
     # command line / nothing), local uses in between
     Reg("history-local-uses", "history", {"same_dir": True, "steps": [
